@@ -1,6 +1,8 @@
 CONSTANTS
   MaxSites = 2
   Unique = FALSE
+  Kws = {"none", "s1", "s2", "traced", "param", "ab", "ba"}
+  Scopes = {"top", "body"}
 SPECIFICATION DevSpec
 INVARIANT DedupSound
 CHECK_DEADLOCK FALSE
